@@ -107,7 +107,7 @@ def s2(ck, an):
         if v is not None and not isinstance(v, (ast.Call, ast.ListComp)):
             # through temporaries: by value id
             kid = fi.sym.canon(v, fi.node_of(s).id)
-            gen = fi.sym.canon(ast.parse("[future_cls(q.year, q.month) for q in pd.date_range(start, end, freq=future_cls.freq)]", mode="eval").body, fi.node_of(s).id)
+            gen = fi.sym.canon(ast.parse("[future_cls(q.year, q.month) for q in pd.date_range(start or future_cls.exists_since, end or future_cls.exists_until, freq=future_cls.freq)]", mode="eval").body, fi.cfg.entry.id)
             if kid == "sorted(contracts)":
                 ck.ok("IDIOM", "S2.given-contracts-sorted", subj, fi.loc(s), "contracts given by the user are sorted with Future.__lt__", construct=stmt_text(s))
                 continue
